@@ -43,8 +43,12 @@ def admissible_nfft(cls, cfg, N, rng):
 
 def check_case(cls, x, cfg, NFFT, c, sampling=1.0):
     """None if the clause holds, else a description"""
-    p0 = E.build(cls, x, cfg, NFFT=NFFT, sampling=sampling, scale_by_freq=False); s0 = np.array(p0.psd)
-    p1 = E.build(cls, x, cfg, NFFT=c * NFFT, sampling=sampling, scale_by_freq=False); s1 = np.array(p1.psd)
+    cfg = dict(cfg); detrend = cfg.pop('detrend', 'unset')
+    p0 = E.build(cls, x, cfg, NFFT=NFFT, sampling=sampling, scale_by_freq=False)
+    p1 = E.build(cls, x, cfg, NFFT=c * NFFT, sampling=sampling, scale_by_freq=False)
+    if detrend != 'unset':
+        p0.detrend = detrend; p1.detrend = detrend          # the attribute of the Fourier classes (constructor argument is not stored)
+    s0 = np.array(p0.psd); s1 = np.array(p1.psd)
     f0 = np.array(p0.frequencies()); f1 = np.array(p1.frequencies())
     if len(f0) != len(s0) or len(f1) != len(s1):
         return 'psd and frequencies() differ in length'
@@ -73,11 +77,43 @@ def check_case(cls, x, cfg, NFFT, c, sampling=1.0):
     return None
 
 
+def fn_eval(name, x, cfg, NFFT):
+    from spectrum import speriodogram, CORRELOGRAMPSD, arma2psd, minvar, pmtm
+    if name == 'speriodogram':
+        return np.asarray(speriodogram(x, NFFT=NFFT, detrend=cfg['detrend'], window=cfg['window'], scale_by_freq=False))
+    if name == 'CORRELOGRAMPSD':
+        return np.asarray(CORRELOGRAMPSD(x, lag=cfg['lag'], NFFT=NFFT, window=cfg['window'], norm=cfg['norm']))
+    if name == 'arma2psd':
+        if cfg.get('pairs'):
+            cfg = dict(cfg, A=[complex(a, b) for a, b in cfg['A']], B=[complex(a, b) for a, b in cfg['B']])
+        return np.asarray(arma2psd(A=np.array(cfg['A']), B=np.array(cfg['B']), rho=cfg['rho'], T=cfg['T'], NFFT=NFFT))
+    if name == 'minvar':
+        return np.asarray(minvar(x, cfg['order'], NFFT=NFFT)[0])
+    if name == 'pmtm':
+        Sk, w, ev = pmtm(x, NW=cfg['NW'], k=cfg['k'], NFFT=NFFT, method=cfg['method'])
+        return np.abs(np.asarray(Sk)) ** 2          # eigenspectra, one row per taper
+    raise KeyError(name)
+
+
+def check_fn(name, x, cfg, NFFT, c):
+    s0 = fn_eval(name, x, cfg, NFFT); s1 = fn_eval(name, x, cfg, c * NFFT)
+    idx = c * np.arange(s0.shape[-1])
+    if np.any(idx >= s1.shape[-1]):
+        return 'the fine grid has no entry for a coarse entry'
+    a = s1[..., idx]
+    if not (np.all(np.isfinite(a)) and np.all(np.isfinite(s0))):
+        return 'non-finite estimate'
+    err = np.max(np.abs(a - s0)) / max(np.max(np.abs(s0)), 1e-300)
+    return None if err <= 1e-7 else 'values differ at a common frequency (relative error %.3g)' % err
+
+
 def replay(rep):
     r = rep['replay']; x = vlib.unhexv(r['x'])
     if r['datatype'] == 'real':
         x = np.real(x)
     try:
+        if r.get('form') == 'function':
+            return check_fn(r['estimator'], x, r['cfg'], r['NFFT'], r['c']) is None
         return check_case(r['estimator'], x, r['cfg'], r['NFFT'], r['c'], r.get('sampling', 1.0)) is None
     except Exception:
         return False
@@ -109,6 +145,10 @@ def run(ctx):
         cplx = bool((it // len(E.CLASSES)) % 2); N = int(rng.integers(16, 41))
         x, kind = E.gen_data(rng, N, cplx)
         cfg = E.default_cfg(cls, N, rng, cplx)
+        if rng.integers(0, 3) == 0:
+            x = x + (3.0 + (2.0j if cplx else 0))          # data with a large mean
+        if cls in ('Periodogram', 'pcorrelogram') and rng.integers(0, 2):
+            cfg['detrend'] = [None, 'mean'][int(rng.integers(0, 2))]
         NFFT = admissible_nfft(cls, cfg, N, rng); c = int(rng.choice([2, 3, 4]))
         sampling = float(rng.choice([1.0, 7.5, 1024.0]))
         tag = 'complex' if cplx else 'real'
@@ -123,3 +163,45 @@ def run(ctx):
         if what is not None:
             ctx.violation('grid/%s/%s/%s' % (cls, tag, 'NFFT-even' if NFFT % 2 == 0 else 'NFFT-odd'),
                           '%s (%s data, NFFT=%d vs %d): %s' % (cls, tag, NFFT, c * NFFT, what), rep)
+
+    # ---------------- functional forms (incl. mean removal, explicit coefficient vectors)
+    FN = ['speriodogram', 'CORRELOGRAMPSD', 'arma2psd', 'minvar', 'pmtm']
+    for it in range(ctx.q(12, 80) * len(FN)):
+        name = FN[it % len(FN)]
+        cplx = bool((it // len(FN)) % 2); N = int(rng.integers(12, 41))
+        x, kind = E.gen_data(rng, N, cplx)
+        if rng.integers(0, 2):
+            x = x + (3.0 + (2.0j if cplx else 0))
+        c = int(rng.choice([2, 3, 4])); NFFT = int(rng.choice([N, N + 1, N + 2, N + 3, 2 * N + 1, 32, 33, 48])); NFFT = max(NFFT, N)
+        if name == 'speriodogram':
+            cfg = {'detrend': bool(rng.integers(0, 2)), 'window': str(rng.choice(['hann', 'hamming', 'rectangular', 'blackman']))}
+        elif name == 'CORRELOGRAMPSD':
+            lag = int(rng.integers(2, N // 2)); cfg = {'lag': lag, 'window': str(rng.choice(['hamming', 'hann', 'rectangular'])), 'norm': str(rng.choice(['biased', 'unbiased']))}
+            NFFT = max(NFFT, 2 * lag + 1)
+        elif name == 'arma2psd':
+            pa = int(rng.integers(0, 6)); pb = int(rng.integers(0, 6))
+            A = (rng.integers(-8, 9, size=pa) + (1j * rng.integers(-8, 9, size=pa) if cplx else 0)) / 16.0
+            B = (rng.integers(-8, 9, size=pb) + (1j * rng.integers(-8, 9, size=pb) if cplx else 0)) / 16.0
+            cfg = {'A': [complex(t) for t in A], 'B': [complex(t) for t in B], 'rho': float(rng.integers(1, 9)) / 4, 'T': float(rng.choice([1.0, 0.5, 8.0]))}
+            NFFT = int(rng.integers(max(pa, pb) + 1, max(pa, pb) + 12))
+        elif name == 'minvar':
+            m = int(rng.integers(2, min(N // 4, 8) + 1)); cfg = {'order': m}; NFFT = max(NFFT, 2 * m)
+        else:
+            NW = float(rng.choice([2.0, 2.5, 3.0])); cfg = {'NW': NW, 'k': int(rng.integers(1, int(2 * NW))), 'method': str(rng.choice(['unity', 'eigen']))}
+        tag = 'complex' if cplx else 'real'
+        jc = {k: ([[t.real, t.imag] for t in v] if isinstance(v, list) else v) for k, v in cfg.items()}
+        ctx.count('search/function/%s/%s' % (name, tag))
+        ctx.case(('fn', name, json.dumps(jc, sort_keys=True), NFFT, c, x.tobytes()), nontrivial=True,
+                 sample={'estimator': name, 'cfg': jc if name != 'arma2psd' else {'orders': [len(cfg['A']), len(cfg['B'])]}, 'N': N, 'NFFT': NFFT, 'c': c, 'datatype': tag})
+        if name == 'arma2psd':
+            cfgr = dict(cfg)
+        rep = {'form': 'function', 'estimator': name, 'cfg': cfg if name != 'arma2psd' else None, 'NFFT': NFFT, 'c': c,
+               'x': vlib.hexv(np.asarray(x, dtype=complex)), 'datatype': tag}
+        if name == 'arma2psd':
+            rep['cfg'] = {'A': [[t.real, t.imag] for t in cfg['A']], 'B': [[t.real, t.imag] for t in cfg['B']], 'rho': cfg['rho'], 'T': cfg['T'], 'pairs': True}
+        try:
+            what = check_fn(name, x, cfg, NFFT, c)
+        except Exception as e:
+            what = 'raised %s: %s' % (type(e).__name__, str(e)[:100])
+        if what is not None:
+            ctx.violation('grid/%s/%s/%s' % (name, tag, 'NFFT-even' if NFFT % 2 == 0 else 'NFFT-odd'), '%s (%s data, NFFT=%d vs %d): %s' % (name, tag, NFFT, c * NFFT, what), rep)
